@@ -146,7 +146,19 @@ func genMesh3(rng *rand.Rand, thorough bool) meshCase3 {
 	if thorough {
 		big = 2
 	}
-	switch rng.Intn(9) {
+	noRot := false
+	switch rng.Intn(10) {
+	case 9:
+		// a mesh that is very sparse in a (nearly) cubic bounding box: two small closed pieces at
+		// opposite corners; queried also beside the box edges that touch neither piece, where the
+		// nearest face is more than one box side away
+		side := g.V3(1, 1+0.03*(2*rng.Float64()-1), 1+0.03*(2*rng.Float64()-1))
+		rad := 0.005 + 0.04*rng.Float64()
+		a := mapTris(uvSphere(3+rng.Intn(3), 4+rng.Intn(3)), func(p C3) C3 { return g.Add3(g.Scale3(p, rad), g.V3(rad, rad, rad)) })
+		far := g.V3(side.X-rad, side.Y-rad, side.Z-rad)
+		b := mapTris(uvSphere(3+rng.Intn(3), 4+rng.Intn(3)), func(p C3) C3 { return g.Add3(g.Scale3(p, rad), far) })
+		mc.kind, mc.tris = "sparse-corners", append(a, b...)
+		noRot = true
 	case 0:
 		n := 3 + rng.Intn(10*big)
 		mc.kind, mc.tris = "uv-sphere", uvSphere(n, 3+rng.Intn(14*big))
@@ -208,7 +220,7 @@ func genMesh3(rng *rand.Rand, thorough bool) meshCase3 {
 	// random similarity (own code); identical inputs map to identical outputs
 	if mc.kind != "unit-box" || rng.Intn(2) == 0 {
 		rot := g.Rot3{Axis: g.RandUnit3(rng), Angle: rng.Float64() * 6}
-		if rng.Intn(4) == 0 {
+		if rng.Intn(4) == 0 || noRot {
 			rot.Angle = 0
 		}
 		sc := math.Pow(10, -2+4*rng.Float64())
@@ -373,6 +385,15 @@ func meshes3(r *vlib.Run) {
 		havePrev := false
 		for qi := 0; qi < nq; qi++ {
 			p, kind := meshQuery3(rng, ts, lo, hi, size)
+			if mc.kind == "sparse-corners" && rng.Intn(2) == 0 {
+				// beside the midpoint of one of the twelve box edges
+				ax := rng.Intn(3)
+				e := [3]float64{float64(rng.Intn(2)), float64(rng.Intn(2)), float64(rng.Intn(2))}
+				e[ax] = 0.5
+				d := g.Sub3(hi, lo)
+				j := func() float64 { return 0.03 * (2*rng.Float64() - 1) }
+				p, kind = g.V3(lo.X+d.X*(e[0]+j()), lo.Y+d.Y*(e[1]+j()), lo.Z+d.Z*(e[2]+j())), "box-edge-midpoint"
+			}
 			c.Count("mesh3d.queries."+kind, 1)
 			abs := absTolK * (M + g.MaxAbs3(p))
 			nb := g.BruteNearest3(p, ts, -1)
